@@ -1,7 +1,7 @@
 CONSTANTS
   NG = 1
   Sizes = {1, 2}
-  ResKinds = {"ok", "exc", "none"}
+  ResKinds = {"ok", "exc"}
   Copies = 1
   FitsCov = {1, 1000001}
   FitsMio = {1}
